@@ -505,16 +505,32 @@ def _ignore_excluded(exclude, keep=()):
 
 
 def _sync_job_workspaces(
-    src, dst, strategy, exclude, copy, copytree, recursive=True, deep=False, subdir=""
+    src,
+    dst,
+    strategy,
+    exclude,
+    copy,
+    copytree,
+    recursive=True,
+    deep=False,
+    subdir="",
+    own_files=(),
 ):
     """Synchronize two job workspaces file by file, following the provided strategy."""
+
+    def _skip(fn):
+        # The job's own state point and document files live at the top level only.
+        return (not subdir and fn in own_files) or (
+            exclude and any([re.match(p, fn) for p in exclude])
+        )
+
     if deep:
         diff = _dircmp_deep(src.fn(subdir), dst.fn(subdir), ignore=[])
     else:
         diff = dircmp(src.fn(subdir), dst.fn(subdir), ignore=[])
 
     for fn in diff.left_only:
-        if exclude and any([re.match(p, fn) for p in exclude]):
+        if _skip(fn):
             logger.debug(f"File named '{fn}' is skipped (excluded).")
             continue
         fn_src = os.path.join(src.path, subdir, fn)
@@ -526,7 +542,7 @@ def _sync_job_workspaces(
         else:
             logger.warning(f"Skip directory '{fn_src}'.")
     for fn in diff.diff_files:
-        if exclude and any([re.match(p, fn) for p in exclude]):
+        if _skip(fn):
             logger.debug(f"File named '{fn}' is skipped (excluded).")
             continue
         if strategy is None:
@@ -550,6 +566,7 @@ def _sync_job_workspaces(
                 recursive=recursive,
                 deep=deep,
                 subdir=os.path.join(subdir, _subdir),
+                own_files=own_files,
             )
         else:
             logger.warning(f"Skip directory '{os.path.join(subdir, _subdir)}'.")
@@ -657,9 +674,11 @@ def sync_jobs(
         exclude = [exclude]
     else:
         exclude = list(exclude)  # the caller's list is not to be changed
-    exclude.append(re.escape(src.FN_STATE_POINT) + r"\Z")
+    # The job's own files are never synchronized as ordinary files (the document
+    # only with DocSync.COPY); files of the same names in sub-directories are.
+    own_files = (src.FN_STATE_POINT,)
     if doc_sync != DocSync.COPY:
-        exclude.append(re.escape(src.FN_DOCUMENT) + r"\Z")
+        own_files += (src.FN_DOCUMENT,)
 
     if type(dry_run) is _FileModifyProxy:
         proxy = dry_run
@@ -695,6 +714,7 @@ def sync_jobs(
             copytree=proxy.copytree,
             recursive=recursive,
             deep=deep,
+            own_files=own_files,
         )
 
     if doc_sync not in (DocSync.NO_SYNC, DocSync.COPY):
